@@ -79,11 +79,17 @@ CHECKS = {
    technique="concurrent property testing with a generation-window oracle over self-identifying values, plus a device-write vs. parked-reader overlap check through the I/O and scheduling hooks",
    text="Readers race one-writer-per-key updates/deletes/TTL changes, a flushing thread, retirement and immediate block reuse on tiny devices; every returned value must be one complete generation inside the [completed-before, started-after] window, not-found/StaleExtent only when justified, sole-modifier increments and swaps exact, and no device write may hit an extent while a reader is parked between locating and reading it.",
    note="Schedule space sampled and steered. The no-overwrite clause is checked for readers parked at the after_sector_load point."),
+ "C18": dict(engine="conc", cat="exploration", ref="§5 C18",
+   technique="property testing of bounded completion: generated contention programs (concurrent flush callers, writers, readers, sweeper, shutdown variants, full device, transient/periodic/site-filtered I/O faults, steered schedules) under a watchdog with isolated re-execution",
+   text="Every call, join, flush and drop of generated contention programs must finish under a 20 s watchdog; an overrun is re-executed alone with a 60 s limit and only a second overrun is reported (with thread states). All other engines run under the same watchdog (their overruns end as exit 2, inconclusive).",
+   note="Liveness is only observed for explored schedules: a watchdog is a bound, not a proof. This is the property the technique is weakest on."),
+ "C20": dict(engine="conc", cat="exploration", ref="§5 C20",
+   technique="re-execution of the generated concurrent programs and fault plans in an AddressSanitizer build (nightly -Zsanitizer=address, system allocator); oracle: no sanitizer report, no abnormal termination",
+   text="The programs of C07, C08/C16, C14 (concurrent), C18 and the fault plans of C09 run in a binary where harness and feoxdb are ASan-instrumented; any heap-use-after-free / double free / out-of-bounds report in any worker is a violation (per-worker log files, abort_on_error).",
+   note="AddressSanitizer only sees executed schedules; data races without a memory-safety symptom are out of reach (TSan needs -Zbuild-std and was not used). Needs the nightly toolchain present in the image."),
 }
 
 NOT_YET = {
- "C18": "termination checks not registered yet (in construction)",
- "C20": "sanitizer runs not registered yet (in construction)",
 }
 
 def main():
